@@ -368,3 +368,55 @@ def histogram(prop, lines):
             h.setdefault("ops", {}).setdefault(op, 0)
             h["ops"][op] += 1
     return h
+
+
+# ------------------------------------------------------------------------------------ C16
+
+def gen_C16(rng, count, tier):
+    n = 0
+    K = 6 if tier == "quick" else 12
+    vals = list(range(-K, K + 1))
+    # exhaustive small cube, packed many builds per scenario
+    batch = []
+    for f in vals:
+        for t in vals:
+            for s in vals:
+                batch.append("n:%d:%d:%d" % (f, t, s))
+                if len(batch) == 60:
+                    yield ("range", " ".join(batch)); batch = []; n += 1
+    if batch:
+        yield ("range", " ".join(batch)); n += 1
+    # all strings over a small alphabet up to length 5 (quick) / 6
+    alpha = [b"0", b"7", b"-", b" ", b"x", b"1"]
+    L = 5 if tier == "quick" else 6
+    import itertools
+    batch = []
+    for ln in range(0, L + 1):
+        for tup in itertools.product(alpha, repeat=ln):
+            x = b"".join(tup)
+            for size in (-1, 0, 1, 8, 100):
+                batch.append("s:%s:%d" % (hx(x), size))
+                if len(batch) == 60:
+                    yield ("range", " ".join(batch)); batch = []; n += 1
+    if batch:
+        yield ("range", " ".join(batch)); n += 1
+    big = [0, 1, -1, 2, 2**31 - 2, 2**31 - 1, 2**31, 2**31 + 1, 2**32, 2**62 - 1, -(2**62) + 1, 2**61, 10**9, 500, 499, 1000]
+    while n < count:
+        n += 1
+        toks = []
+        for _ in range(20):
+            k = rng.randrange(5)
+            f, t, s, s2 = (pick(rng, big + vals) * pick(rng, [1, 1, -1]) for _ in range(4))
+            if k == 0:
+                toks.append("n:%d:%d:%d" % (f, t, s))
+            elif k == 1:
+                toks.append("a:%d:%d:%d" % (f, t, s))
+            elif k == 2:
+                toks.append("c:%d:%d:%d:%d" % (f, t, s, s2))
+            else:
+                a = pick(rng, [b"", b"0", b"10", b"00012", b"2147483647", b"2147483648", b"99999999999", b"9223372036854775808", b"5", b"500", b"1x", b"+1", b"-"])
+                c = pick(rng, [b"", b"0", b"10", b"600", b"2147483647", b"2147483648", b"99999999999999999999", b"7", b"-3", b" 4"])
+                pad1, pad2 = pick(rng, [b"", b"", b" ", b"\t", b"\n "]), pick(rng, [b"", b"", b" ", b"\r\n"])
+                sep = pick(rng, [b"-", b"-", b"-", b"--", b" - ", b"", b","])
+                toks.append("s:%s:%d" % (hx(pad1 + a + sep + c + pad2), pick(rng, [-1, 0, 1, 10, 500, 1000, 2**31, 2**40, -5])))
+        yield ("range", " ".join(toks))
